@@ -15,7 +15,7 @@ PROPERTY_RULES = {
     "C10": ["r_c2", "r_c1", "r_e1", "r_c5", "r_c7", "r_c8", "r_c4", "r_c3", "r_c9"],
     "C11": ["r_c2", "r_c1", "r_a6", "r_c5", "r_c4", "r_e1", "r_a8", "r_a9", "r_a16", "r_a21", "r_c9", "r_a23", "r_c8", "r_u3"],
     "C12": ["r_c4", "r_e1", "r_c9"],
-    "C13": ["r_e4", "r_a6", "r_c3", "r_e1", "r_a13", "r_a16", "r_c7", "r_a8", "r_a20", "r_c8; slice_ref answers without slicing only for the empty subset (A13)"],
+    "C13": ["r_e4", "r_a6", "r_c3", "r_e1", "r_a13", "r_a16", "r_c7", "r_a8", "r_a20", "r_c8"],
     "C14": ["r_d1"],
     "C15": ["r_d2", "r_d3"],
     "C16": ["r_e1", "r_e2", "r_e5", "r_b1", "r_o3", "r_a2", "r_a9", "r_e6", "r_e7"],
